@@ -339,6 +339,36 @@ func nearMissCases() []*RejectCase {
 			out = append(out, rc)
 		}
 	}
+	// the needed type is provided only by ANOTHER initialiser of the var spec that declares the
+	// listed set (var _, SetY = wire.NewSet(NewX), wire.NewSet(NewY)): a set variable means its
+	// own initialiser, whatever names stand before or after it
+	for _, after := range []bool{false, true} {
+		for _, ctl := range []bool{false, true} {
+			n++
+			b := NewPB(fmt.Sprintf("nb%02d", n), "app")
+			x, y, app := b.Carrier(0, "X"), b.Carrier(0, "Y"), b.Carrier(0, "App")
+			nx := b.Func(0, "NewX", x, false, false)
+			ny := b.Func(0, "NewY", y, false, false)
+			na := b.Func(0, "NewApp", app, false, false, x, y)
+			nx.Stub, ny.Stub, na.Stub = true, true, true
+			set := b.Set(0, "SetY", ItemRef(ny.ID))
+			set.BlankSibling = []Ref{ItemRef(nx.ID)}
+			set.SiblingAfter = after
+			build := []Ref{ItemRef(na.ID), SetRef(set.ID)}
+			if ctl {
+				build = append(build, ItemRef(nx.ID))
+			}
+			b.Inj("Init", app, false, false, nil, build...)
+			cell := fmt.Sprintf("nearmiss:provided-only-by-the-blank-sibling-of-the-set-variable/blank-after=%v", after)
+			b.P.Note = cell
+			b.P.Feat = map[string]string{"nearmiss": "blank-sibling-initialiser", "pos": fmt.Sprint(after)}
+			if ctl {
+				out = append(out, &RejectCase{P: b.P, Control: true, Cell: "control:" + cell})
+			} else {
+				out = append(out, &RejectCase{P: b.P, Class: "missing", MustName: []string{DiagName(b.P, x)}, Cell: cell})
+			}
+		}
+	}
 	return out
 }
 
@@ -718,8 +748,57 @@ func CheckC08(e *Env) int {
 		cases = append(cases, &RejectCase{P: base, Control: true, Cell: "control:" + base.Note})
 		cases = append(cases, superfluousMutants(base, base.ID, kinds)...)
 	}
+	cases = append(cases, sameNamedSuperfluousCases()...)
 	runRejectCases(e, rep, cases, "c08")
 	return rep.Finish(t0)
+}
+
+// sameNamedSuperfluousCases: the superfluous item is spelled exactly like a USED one - same
+// function / type name in another package with the same package clause (primary/db.New next to
+// replica/db.New), for function, struct and value items, listed before or after the used one.
+func sameNamedSuperfluousCases() []*RejectCase {
+	var out []*RejectCase
+	n := 0
+	for _, kind := range []string{"func", "struct", "value"} {
+		for _, extraFirst := range []bool{false, true} {
+			for _, ctl := range []bool{false, true} {
+				n++
+				b := NewPB(fmt.Sprintf("sns%02d", n), "app", "primary", "replica")
+				b.P.Pkgs[1].Name, b.P.Pkgs[2].Name = "db", "db"
+				used, extra := b.Carrier(1, "Conn"), b.Carrier(2, "Conn")
+				var iu, ie *Item
+				switch kind {
+				case "func":
+					iu, ie = b.Func(1, "New", PtrTo(used), false, false), b.Func(2, "New", PtrTo(extra), false, false)
+					iu.Stub, ie.Stub = true, true
+				case "struct":
+					iu, ie = b.Struct(used, false), b.Struct(extra, false)
+				case "value":
+					iu, ie = b.Value(used), b.Value(extra)
+				}
+				res := PtrTo(used)
+				if kind == "value" {
+					res = used
+				}
+				build := []Ref{ItemRef(iu.ID), ItemRef(ie.ID)}
+				if extraFirst {
+					build[0], build[1] = build[1], build[0]
+				}
+				if ctl {
+					build = []Ref{ItemRef(iu.ID)}
+				}
+				b.Inj("Init", res, false, false, nil, build...)
+				cell := fmt.Sprintf("superfluous-spelled-like-a-used-item/kind=%s/extra-first=%v", kind, extraFirst)
+				b.P.Note = cell
+				if ctl {
+					out = append(out, &RejectCase{P: b.P, Control: true, Cell: "control:" + cell})
+				} else {
+					out = append(out, &RejectCase{P: b.P, Class: "unused", Cell: cell})
+				}
+			}
+		}
+	}
+	return out
 }
 
 // passThroughBases: accepted injectors whose plan has no provider call at all.
